@@ -1,6 +1,8 @@
 package engine
 
 import (
+	"context"
+	"encoding/binary"
 	"encoding/json"
 	"fmt"
 	"io"
@@ -24,15 +26,17 @@ import (
 // (runRace), which is runtime monitoring, not simulation.
 
 type C17Case struct {
-	Mode      string       `json:"mode"`
-	Layout    Layout       `json:"layout"`
-	Clock0    int64        `json:"clock0"`
-	Files     []WFile      `json:"files"`
-	Queries   [][]C04Query `json:"queries,omitempty"` // per actor (mode handle)
-	Cmds      []Cmd        `json:"cmds,omitempty"`    // modes sum, server
-	Raw       []string     `json:"raw,omitempty"`     // mode server: raw request paths (with query) issued by extra clients
-	PreemptP  float64      `json:"preempt_p"`
-	SchedSeed uint64       `json:"sched_seed"`
+	Mode       string       `json:"mode"`
+	Layout     Layout       `json:"layout"`
+	Clock0     int64        `json:"clock0"`
+	Files      []WFile      `json:"files"`
+	Queries    [][]C04Query `json:"queries,omitempty"`     // per actor (mode handle)
+	Cmds       []Cmd        `json:"cmds,omitempty"`        // modes sum, server
+	Raw        []string     `json:"raw,omitempty"`         // mode server: raw request paths (with query) issued by extra clients
+	DamageArch int          `json:"damage_arch,omitempty"` // mode handle: 1+k: the base interval of archive k is made misaligned before the handles are opened (fetches of that archive fail, the others must not care)
+	Cancel     []int        `json:"cancel,omitempty"`      // mode server: raw requests whose client gives up (closes its connection) at a seeded moment
+	PreemptP   float64      `json:"preempt_p"`
+	SchedSeed  uint64       `json:"sched_seed"`
 }
 
 type c17Sim struct{}
@@ -146,6 +150,13 @@ func (c17Sim) Gen(prop, tier string, r *rand.Rand) interface{} {
 				c.Cmds = append(c.Cmds, cm)
 			}
 		}
+	}
+	if c.Mode == "handle" && len(c.Layout.Archs) > 1 && chance(r, 0.12) {
+		c.DamageArch = 1 + r.IntN(len(c.Layout.Archs))
+	}
+	if c.Mode == "server" && len(c.Raw) > 0 && chance(r, 0.25) {
+		// F7: a client gives up while its request is being served (or waits for a lock)
+		c.Cancel = append(c.Cancel, r.IntN(len(c.Raw)))
 	}
 	return c
 }
@@ -262,6 +273,26 @@ func c17Handle(e *Env, c *C17Case) {
 		return
 	}
 	now := Now()
+	if k := c.DamageArch - 1; k >= 0 && k < len(c.Layout.Archs) {
+		// F5: one archive's base interval is damaged (misaligned): its fetches
+		// fail, which must not reach the fetches of the other archives
+		off := int64(16 + 12*len(c.Layout.Archs))
+		for i := 0; i < k; i++ {
+			off += 12 * c.Layout.Archs[i].N
+		}
+		if f, ferr := os.OpenFile(c.Files[0].path(e), os.O_RDWR, 0); ferr == nil {
+			var b [4]byte
+			if _, rerr := f.ReadAt(b[:], off); rerr == nil {
+				v := binary.BigEndian.Uint32(b[:])
+				if v != 0 && c.Layout.Archs[k].S > 1 {
+					binary.BigEndian.PutUint32(b[:], v+1)
+					f.WriteAt(b[:], off)
+					e.Fault("F5.base-interval-misaligned")
+				}
+			}
+			f.Close()
+		}
+	}
 	// the shared handle is opened the way a reader may: default flags, or
 	// read-only (a knob of the run)
 	opts := []wt.Option{wt.WithoutFlock()}
@@ -275,25 +306,24 @@ func c17Handle(e *Env, c *C17Case) {
 		return
 	}
 	defer db.Close()
-	// sequential reference on a fresh handle (pages are loaded lazily: the
-	// shared handle must start cold)
-	ref, err := wt.Open(c.Files[0].path(e), wt.WithoutFlock())
-	if err != nil {
-		e.Skip("world-unreadable")
-		return
-	}
+	// the reference: every fetch alone, each on a handle of its own (nothing
+	// one fetch leaves on a handle can reach another)
 	want := make([][]fetchResult, len(c.Queries))
 	for a, qs := range c.Queries {
 		for _, q := range qs {
 			if q.ID < -1 || q.ID >= len(c.Layout.Archs) {
-				ref.Close()
 				e.Skip("invalid-case")
 				return
 			}
+			ref, err := wt.Open(c.Files[0].path(e), wt.WithoutFlock())
+			if err != nil {
+				e.Skip("world-unreadable")
+				return
+			}
 			want[a] = append(want[a], doFetch(ref, q, now))
+			ref.Close()
 		}
 	}
-	ref.Close()
 	s := NewSched(c.SchedSeed, nSites)
 	s.PreemptP = c.PreemptP
 	if e.SchedRec != nil && e.SchedRec.Replay {
@@ -386,9 +416,24 @@ func c17Commands(e *Env, c *C17Case) {
 		tags[i] = fmt.Sprintf("con%d", i)
 	}
 	rawGot := make([]string, len(c.Raw))
+	cancelled := map[int]bool{}
 	if remote {
+		for _, i := range c.Cancel {
+			if i >= 0 && i < len(c.Raw) {
+				cancelled[i] = true
+			}
+		}
 		for i, q := range c.Raw {
 			i, q := i, q
+			if cancelled[i] {
+				// this client gives up at a moment the scheduler chooses: its own
+				// answer does not matter, every other request must be served as if
+				// it had been alone
+				ctx, cancel := context.WithCancel(context.Background())
+				cr.s.Go(fmt.Sprintf("R%d", i), func() { rawGot[i] = rawGetCtx(ctx, q) })
+				cr.s.Go(fmt.Sprintf("X%d", i), func() { cancel(); e.Fault("F7.client-gives-up") })
+				continue
+			}
 			cr.s.Go(fmt.Sprintf("R%d", i), func() { rawGot[i] = rawGet(q) })
 		}
 	}
@@ -434,6 +479,9 @@ func c17Commands(e *Env, c *C17Case) {
 		}
 	}
 	for i := range c.Raw {
+		if cancelled[i] {
+			continue
+		}
 		if remote && rawGot[i] != rawRef[i] {
 			e.Violate("C17.equal-sequential", "raw request %s: response %q when issued concurrently with %d other request(s), %q when issued alone",
 				c.Raw[i], trunc(rawGot[i], 160), len(c.Raw)+len(c.Cmds)-1, trunc(rawRef[i], 160))
@@ -449,6 +497,20 @@ func c17Commands(e *Env, c *C17Case) {
 }
 
 // rawGet issues one GET over the simulated wire and returns status and body.
+func rawGetCtx(ctx context.Context, pathAndQuery string) string {
+	req, err := http.NewRequestWithContext(ctx, "GET", simURL+pathAndQuery, nil)
+	if err != nil {
+		return "request error: " + err.Error()
+	}
+	resp, err := http.DefaultClient.Do(req)
+	if err != nil {
+		return "transport error: " + err.Error()
+	}
+	defer resp.Body.Close()
+	b, _ := io.ReadAll(resp.Body)
+	return fmt.Sprintf("%d %s|%s", resp.StatusCode, resp.Header.Get("Content-Type"), b)
+}
+
 func rawGet(pathAndQuery string) string {
 	resp, err := http.Get(simURL + pathAndQuery)
 	if err != nil {
